@@ -127,7 +127,11 @@ def r_chain(E):
         if ok is None:
             # seen-set idiom: `if x not in seen: seen.add(x); out.append(..)` keeps the FIRST occurrence when the chain
             # is walked forwards, the last one when it is walked through reversed(...) and reversed back
-            for loop in [n for n in ast.walk(fn) if isinstance(n, ast.For)]:
+            # (possibly in helpers, also of another module, one calling the other with the chain reversed)
+            from ..astutil import nodes_through_helpers as _nth_ss
+            _ffh, _ffp = pm.function_finder(rel), pm.package_function_finder()
+            _ss_nodes = list(_nth_ss(fn, None, depth=3, find_function=lambda nm_: _ffh(nm_) or _ffp(nm_)))
+            for loop in [n for n in _ss_nodes if isinstance(n, ast.For)]:
                 grows = [c for c in _calls(loop) if isinstance(c.func, ast.Attribute) and c.func.attr in ("add", "append")]
                 tests = [n for n in ast.walk(loop) if isinstance(n, ast.Compare) and isinstance(n.ops[0], ast.NotIn)]
                 seen_names = {norm(c.func.value) for c in grows}
